@@ -199,6 +199,165 @@ fn explicit_other_vr_streams(dict: &Dict) -> Vec<Stream> {
     out
 }
 
+/// one element of a hand-composed stream: tag, VR written on the wire (explicit), value bytes
+type El = ((u16, u16), &'static str, Vec<u8>);
+
+fn el(tag: (u16, u16), vr: &'static str, v: &[u8]) -> El {
+    (tag, vr, v.to_vec())
+}
+
+/// Streams of 2-4 elements that walk the adaptive decoder's state machine beyond the first probe:
+/// (a) 1-2 leading elements without dictionary entry (private data elements without / with their
+/// creator, unknown even-group tags), (b) known standard tags whose explicit VR is legal but not the
+/// dictionary's (UN for anything, SH for LO, ST for LT, OB<->OW, US<->SS, xs/lt attributes),
+/// (c) an ordinary element; also (b) before (a); each behind nothing, a leading item delimiter, a
+/// known sequence (undefined / defined lengths) and a sequence on a tag without entry. The same
+/// element lists are also encoded in Implicit VR LE.
+fn lock_sequence_streams(dict: &Dict) -> Vec<Stream> {
+    let wire_a = ["LO", "UN", "US"];
+    let val = |vr: &str| -> Vec<u8> {
+        match vr {
+            "US" | "SS" | "OW" => vec![1, 0],
+            "OB" | "UN" => vec![1, 2],
+            _ => b"AB".to_vec(),
+        }
+    };
+    // (a) segments in group 0009 / 0012 (after group 0008, before group 0018)
+    let mut a_segs: Vec<(&'static str, Vec<El>)> = vec![];
+    for w in wire_a {
+        a_segs.push(("private-no-creator", vec![el((0x0009, 0x1001), w, &val(w))]));
+        a_segs.push(("creator-then-private", vec![el((0x0009, 0x0010), "LO", b"VX"), el((0x0009, 0x1001), w, &val(w))]));
+        a_segs.push(("unknown-even-group", vec![el((0x0012, 0x9900), w, &val(w))]));
+        a_segs.push(("private-then-unknown", vec![el((0x0009, 0x1001), w, &val(w)), el((0x0012, 0x9901), "US", &[2, 0])]));
+    }
+    // (b) known tags with a wire VR that is not the dictionary's; groups >= 0018 (after the (a) segment)
+    let b_late: Vec<(&'static str, El)> = vec![
+        ("LO-as-SH", el((0x0018, 0x1030), "SH", b"AB")),
+        ("LO-as-UN", el((0x0018, 0x1030), "UN", b"AB")),
+        ("IS-as-UN", el((0x0020, 0x0013), "UN", b"12")),
+        ("IS-as-LO", el((0x0020, 0x0013), "LO", b"12")),
+        ("LT-as-ST", el((0x0020, 0x4000), "ST", b"AB")),
+        ("LT-as-UN", el((0x0020, 0x4000), "UN", b"AB")),
+        ("US-as-SS", el((0x0028, 0x0010), "SS", &[1, 0])),
+        ("US-as-UN", el((0x0028, 0x0010), "UN", &[1, 0])),
+        ("xs-as-SS", el((0x0028, 0x0106), "SS", &[0xFE, 0xFF])),
+        ("xs-as-US", el((0x0028, 0x0106), "US", &[1, 0])),
+        ("xs-as-UN", el((0x0028, 0x0106), "UN", &[1, 0])),
+        ("xs-as-OW", el((0x0028, 0x0106), "OW", &[1, 0])),
+        ("OW-as-OB", el((0x0028, 0x1201), "OB", &[1, 2])),
+        ("lt-as-OB", el((0x0028, 0x3006), "OB", &[1, 2])),
+        ("lt-as-US", el((0x0028, 0x3006), "US", &[1, 0])),
+        ("lt-as-OW", el((0x0028, 0x3006), "OW", &[1, 0])),
+        ("OB-as-OW", el((0x0042, 0x0011), "OW", &[1, 0])),
+        ("OB-as-UN", el((0x0042, 0x0011), "UN", &[1, 2])),
+    ];
+    // (b) in group 0008, for the order (b) before (a)
+    let b_early: Vec<(&'static str, El)> = vec![
+        ("CS-as-UN", el((0x0008, 0x0008), "UN", b"AB")),
+        ("UI-as-UN", el((0x0008, 0x0018), "UN", b"1.2\0")),
+        ("LO-as-SH", el((0x0008, 0x0070), "SH", b"AB")),
+        ("LO-as-UN", el((0x0008, 0x0070), "UN", b"AB")),
+        ("US-as-SS", el((0x0008, 0x0301), "SS", &[1, 0])),
+        ("OB-as-OW", el((0x0008, 0x041B), "OW", &[1, 0])),
+        ("LO-as-LO", el((0x0008, 0x0070), "LO", b"AB")),
+    ];
+    let c = el((0x0088, 0x0140), "UI", b"1.2.3.44");
+    let to_relems = |els: &[El]| -> Vec<RElem> { els.iter().map(|(t, v, b)| RElem { tag: *t, vr: rds::vr(v), val: RVal::Prim(b.clone()) }).collect() };
+    // what stands in first position
+    let sq = |tag: (u16, u16), explicit: bool| RElem {
+        tag,
+        vr: *b"SQ",
+        val: RVal::Seq { explicit, items: vec![RItem { explicit, elems: vec![RElem::prim((0x0008, 0x0100), "SH", b"X ")] }] },
+    };
+    let prefixes: Vec<(&'static str, bool, Vec<RElem>)> = vec![
+        ("none", false, vec![]),
+        ("item-delimiter", true, vec![]),
+        ("known-sq-undefined", false, vec![sq((0x0008, 0x0006), false)]),
+        ("known-sq-defined", false, vec![sq((0x0008, 0x0006), true)]),
+        ("no-entry-sq-undefined", false, vec![sq((0x0007, 0x1080), false)]),
+    ];
+    let mut lists: Vec<(String, &'static str, &'static str, &'static str, Vec<El>)> = vec![];
+    for (ak, a) in &a_segs {
+        for (bk, b) in &b_late {
+            let mut v = a.clone();
+            v.push(b.clone());
+            v.push(c.clone());
+            lists.push((format!("{ak}[{}] {bk}", a.last().unwrap().1), "a-b-c", ak, bk, v));
+        }
+        // two (b) elements in a row
+        for w in b_late.windows(2).step_by(3) {
+            if w[0].1 .0 < w[1].1 .0 {
+                let mut v = a.clone();
+                v.push(w[0].1.clone());
+                v.push(w[1].1.clone());
+                lists.push((format!("{ak}[{}] {} {}", a.last().unwrap().1, w[0].0, w[1].0), "a-b-b", ak, w[0].0, v));
+            }
+        }
+        for (bk, b) in &b_early {
+            let mut v = vec![b.clone()];
+            v.extend(a.clone());
+            v.push(c.clone());
+            lists.push((format!("{bk} {ak}[{}]", a.last().unwrap().1), "b-a-c", ak, bk, v));
+        }
+    }
+    let mut out = vec![];
+    for (pk, delim, pre) in &prefixes {
+        for (label, order, ak, bk, els) in &lists {
+            let mut tree = pre.clone();
+            tree.extend(to_relems(els));
+            for explicit in [true, false] {
+                let ts = if explicit { Ts::ExplicitLE } else { Ts::ImplicitLE };
+                let mut bytes = if *delim { ITEM_DELIM_LE.to_vec() } else { vec![] };
+                bytes.extend(rds::encode_items(ts, &tree));
+                let first = tree[0].tag;
+                out.push(Stream {
+                    family: "lock-sequence",
+                    label: format!("[{pk}] {label}"),
+                    explicit,
+                    bytes,
+                    extra: json!({"spelled": "-", "first_entry": enc_amb::entry_vr(dict, first).unwrap_or("none".into()), "prefix_item_delimiter": *delim,
+                                  "prefix": pk, "order": order, "a_kind": ak, "b_case": bk}),
+                });
+            }
+        }
+    }
+    out
+}
+
+/// Implicit streams where the probe is decided by an unambiguous first element and a *later*
+/// element's length spells a VR compatible with its own dictionary entry: the lock must hold.
+fn implicit_later_spelled_streams(dict: &Dict) -> Vec<Stream> {
+    let mut out = vec![];
+    let firsts: Vec<(&'static str, bool, Vec<RElem>)> = vec![
+        ("known-UI", false, vec![RElem::prim((0x0008, 0x0005), "CS", b"ISO_IR 100")]),
+        ("known-US", false, vec![RElem::prim((0x0008, 0x0301), "US", &[1, 0])]),
+        ("private-no-creator", false, vec![RElem::prim((0x0007, 0x1001), "UN", &[1, 2])]),
+        ("group-length", false, vec![RElem::prim((0x0008, 0x0000), "UL", &[4, 0, 0, 0])]),
+        ("item-delimiter+known", true, vec![RElem::prim((0x0008, 0x0301), "US", &[1, 0])]),
+        ("known-sq", false, vec![RElem { tag: (0x0008, 0x0006), vr: *b"SQ", val: RVal::Seq { explicit: false, items: vec![RItem { explicit: false, elems: vec![] }] } }]),
+    ];
+    for code in even_codes() {
+        let len = u16::from_le_bytes(code) as usize;
+        let vr: &'static str = rds::VRS.iter().find(|s| s.as_bytes() == code).unwrap();
+        let tag = std_tag(vr);
+        for (fk, delim, first) in &firsts {
+            let mut elems = first.clone();
+            elems.push(RElem { tag, vr: code, val: RVal::Prim(filler(vr, len)) });
+            elems.push(RElem::prim((0x0088, 0x0140), "UI", b"1.2.3.44"));
+            let mut bytes = if *delim { ITEM_DELIM_LE.to_vec() } else { vec![] };
+            bytes.extend(rds::encode_items(Ts::ImplicitLE, &elems));
+            out.push(Stream {
+                family: "implicit-later-length-spells-vr",
+                label: format!("{fk}, then ({:04X},{:04X}) len={len} spells {vr}", tag.0, tag.1),
+                explicit: false,
+                bytes,
+                extra: json!({"spelled": vr, "first_entry": enc_amb::entry_vr(dict, elems[0].tag).unwrap_or("none".into()), "prefix_item_delimiter": *delim, "prefix": fk}),
+            });
+        }
+    }
+    out
+}
+
 fn universe_streams(dict: &Dict) -> Vec<Stream> {
     let mut uni = ds1();
     uni.extend(ds_nested(2));
@@ -249,7 +408,11 @@ fn run_stream(l: &mut Local, dict: &Dict, idx: usize, s: &Stream) {
         l.check.machinery_error(&format!("stream {idx} has no element"));
         return;
     };
-    let skip = if s.explicit { enc_amb::explicit_is_undecidable(dict, tag, after) } else { enc_amb::implicit_is_ambiguous(dict, tag, after) };
+    // The statement's only exemption: an implicit stream whose first length bytes spell a VR code
+    // compatible with the attribute's dictionary entry. An explicit stream whose first VR
+    // contradicts the dictionary is NOT exempt (the statement requires it to be read as explicit).
+    let skip = !s.explicit && enc_amb::implicit_is_ambiguous(dict, tag, after);
+    let first_probe = enc_amb::probe_class(dict, tag, after);
     // the regular decoder on the syntax the stream is really in (once per stream)
     let mut reference: Option<Vec<Tok>> = None;
     for (di, declared) in [TS4[1], TS4[0]].iter().enumerate() {
@@ -259,10 +422,10 @@ fn run_stream(l: &mut Local, dict: &Dict, idx: usize, s: &Stream) {
         }
         l.eval();
         if skip {
-            l.outcome_with(if s.explicit { "skipped-explicit-vr-contradicts-dictionary" } else { "skipped-implicit-length-spells-compatible-vr" }, || json!({"case": case_id, "stream": s.label}));
+            l.outcome_with("skipped-implicit-length-spells-compatible-vr", || json!({"case": case_id, "stream": s.label}));
             continue;
         }
-        let class = merge(&s.extra, json!({"family": s.family, "encoding": if s.explicit { "explicit-le" } else { "implicit-le" }, "declared": if di == 0 { "explicit-le" } else { "implicit-le" }}));
+        let class = merge(&s.extra, json!({"family": s.family, "first_probe": first_probe, "encoding": if s.explicit { "explicit-le" } else { "implicit-le" }, "declared": if di == 0 { "explicit-le" } else { "implicit-le" }}));
         let detail = |m: String| json!({"stream": s.label, "head": hex(&s.bytes[..s.bytes.len().min(64)]), "message": m});
         if reference.is_none() {
             match guard(|| read_tokens(&s.bytes, real_uid, false)) {
@@ -308,7 +471,7 @@ fn run_stream(l: &mut Local, dict: &Dict, idx: usize, s: &Stream) {
 
 fn main() {
     let check = Check::from_args("C08", Level::Exploration);
-    check.set_rule("streams: (a) every data set of DS(1,0) ∪ DS_r(2,2) ∪ DS_r(3,2) ∪ DS(2,0), all-undefined and all-defined length shapes, reference-encoded in Explicit VR LE and Implicit VR LE, single-element sets also behind a leading item delimiter; (b) implicit streams whose first 32-bit length has low 16 bits spelling each of the nine VR codes an even length can spell (DA DS DT FL FD LO LT PN TM) x first tag of every dictionary class (33 exact VRs, xs, lt, ox, ox repeating group, px, group length, private creator, private, unknown) and a defined-length sequence, with and without a leading item delimiter; (c) explicit streams whose first explicit VR differs from the dictionary VR; each read by DataSetReader with flexible_decoding on (declared Explicit VR LE and declared Implicit VR LE) and off (true syntax); a case is (stream, declared syntax); ambiguous/undecidable first elements are counted and skipped by an independent dictionary-based filter; non-trivial = both readers ran; distinct by (encoding, declared, stream bytes)");
+    check.set_rule("streams: (a) every data set of DS(1,0) ∪ DS_r(2,2) ∪ DS_r(3,2) ∪ DS(2,0), all-undefined and all-defined length shapes, reference-encoded in Explicit VR LE and Implicit VR LE, single-element sets also behind a leading item delimiter; (b) implicit streams whose first 32-bit length has low 16 bits spelling each of the nine VR codes an even length can spell (DA DS DT FL FD LO LT PN TM) x first tag of every dictionary class (33 exact VRs, xs, lt, ox, ox repeating group, px, group length, private creator, private, unknown) and a defined-length sequence, with and without a leading item delimiter; (c) explicit streams whose first explicit VR differs from the dictionary VR; (d) 2-4 element streams in both encodings: 1-2 leading elements without dictionary entry (private without/with creator, unknown tags) x known tags written with a legal VR that is not the dictionary's (UN, SH for LO, ST for LT, OB<->OW, US<->SS, xs, lt) x an ordinary element, also with the known-tag element first, each behind {nothing, item delimiter, known sequence undefined/defined, sequence without entry}; (e) implicit streams decided by an unambiguous first element whose later element's length spells a compatible VR; each read by DataSetReader with flexible_decoding on (declared Explicit VR LE and declared Implicit VR LE) and off (true syntax); a case is (stream, declared syntax); the statement's exemption (implicit stream whose first length bytes spell a VR compatible with the entry) is computed by an independent dictionary-based filter, counted and skipped; nothing else is exempt; non-trivial = both readers ran; distinct by (encoding, declared, stream bytes)");
     check.assume("vx-ref encoder; the extracted dictionary table and the compatibility reading of PS3.6 virtual VRs (xs = US|SS, ox/px = OB|OW, lt = US|OW); a tag without dictionary entry is compatible with any code (nothing can contradict it)");
     check.assume("quick = thorough: the universe is enumerated completely in both tiers");
     let dict = Dict::load();
@@ -317,7 +480,12 @@ fn main() {
     streams.extend(spelled_length_streams(&dict));
     let n_spelled = streams.len() - n_uni;
     streams.extend(explicit_other_vr_streams(&dict));
-    check.extra("streams", json!({"universe": n_uni, "implicit_length_spells_vr": n_spelled, "explicit_first_vr_differs": streams.len() - n_uni - n_spelled}));
+    let n_other = streams.len() - n_uni - n_spelled;
+    streams.extend(lock_sequence_streams(&dict));
+    let n_lock = streams.len() - n_uni - n_spelled - n_other;
+    streams.extend(implicit_later_spelled_streams(&dict));
+    let n_later = streams.len() - n_uni - n_spelled - n_other - n_lock;
+    check.extra("streams", json!({"universe": n_uni, "implicit_length_spells_vr": n_spelled, "explicit_first_vr_differs": n_other, "lock_sequence": n_lock, "implicit_later_length_spells_vr": n_later}));
     check.par_range(streams.len() as u64, |l, i| run_stream(l, &dict, i as usize, &streams[i as usize]));
     check.finish();
 }
